@@ -607,7 +607,7 @@ class ForEachTrace:
                 for f in self.elem_facts(sb.peek(), elem, it):
                     sb.assume(f)
             ex.bind_target(s.target, elem, sb.env)
-            base = len(sb.pc); heap0 = dict(sb.heap)
+            base = len(sb.pc); heap0 = dict(sb.heap); nbr = len(sb.branches)
             template = []
             body_outs = ex.run(s.body, sb, d)
             single = len([1 for _s, kk, _v in body_outs if kk == "fall"]) == 1
@@ -624,7 +624,8 @@ class ForEachTrace:
                     untouched = (k in heap0 and heap0[k].eq(v)) or (k not in heap0 and z3.is_const(v) and v.decl().name() == "H0_" + k)
                     if k != "alloc" and not untouched and not k.startswith("g:") and k not in allowed:
                         raise Unsupported(f"for-each body of `{self.name}` has a heap effect on {k}; use an invariant")
-                g = z3.And(*s2.pc[base:]) if (len(s2.pc) > base and not single) else None
+                qf = [c for c in s2.branches[nbr:] if not has_quant(c)]
+                g = z3.And(*qf) if (qf and not single) else None
                 for k_, g_, a_ in s2.trace:
                     gg = g if g_ is None else (z3.And(g, g_) if g is not None else g_)
                     template.append((k_, gg, a_))
